@@ -50,6 +50,7 @@ fn sched_legs_inner(thorough: bool) -> Vec<SchedLeg> {
         SchedLeg { name: "cli-compress/fixed16/brotli/b3".into(), spec: compress_spec("cli-compress", &f16, &Comp::Brotli(6), 8, 3, &src16), bound: b, reduce: true, cap: 0 },
         SchedLeg { name: "cli-compress/rollsum/b1".into(), spec: compress_spec("cli-compress", &roll, &Comp::None, 64, 1, &rollsrc), bound: b, reduce: true, cap: 0 },
         SchedLeg { name: "lib-compress/fixed4/dup/b2".into(), spec: compress_spec("lib-compress", &f4, &Comp::None, 64, 2, &src_dup), bound: b, reduce: true, cap: 0 },
+        SchedLeg { name: "lib-compress-pair/fixed4/b1".into(), spec: pair_spec(&f4, &Comp::None, 64, 1, &src2, b"CCCCDDDDEE"), bound: b.min(2), reduce: true, cap: 0 },
         SchedLeg { name: "cli-clone/fixed4/plain/b2".into(), spec: clone_spec(&f4, &Comp::None, 64, 2, &src3, None, None, false, true), bound: b, reduce: true, cap: 0 },
         SchedLeg { name: "cli-clone/fixed4/seed/b2".into(), spec: clone_spec(&f4, &Comp::None, 64, 2, &src_dup, Some(b"XXXXBBBBYYYYCCCC"), None, false, false), bound: b, reduce: true, cap: 0 },
         SchedLeg { name: "cli-clone/fixed4/in-place/b2".into(), spec: clone_spec(&f4, &Comp::None, 64, 2, &src_dup, None, Some(b"BBBBAAAAXXXXCCCCZZZZ"), true, false), bound: b, reduce: true, cap: 0 },
